@@ -17,7 +17,7 @@ RULE = ("random circuits of 1-8 (thorough 14) affine probe blocks with 1-3 ports
         "graph on <= 4 nodes in every declaration order; distinct = distinct (circuit, order); non-trivial = at least "
         "two components of which one has a link")
 TRUSTED = ["union-find reference for the partition", "numpy reference per component"]
-ASSUMPTIONS = ["split() is called on a solver with no add_param definitions (param_mapping empty)"]
+ASSUMPTIONS = ["the random-topology stream calls split() on solvers without add_param definitions; definitions are covered by the param-definitions stream"]
 EXPLANATION = "components_spec: same returned set iff linked by a chain of connections, any topology, any declaration order"
 
 
@@ -186,7 +186,86 @@ def gen_case(rng, nmax):
     return pcirc, order, lo, assigns, setp
 
 
+def param_defs_case(ctx, seed):
+    """parameter *definitions* are handed over too: a solver whose groups contain plain probe blocks and hierarchical blocks
+    (a probe inside its own solver, placed with or without a renaming), with some parameters redefined at the top through
+    add_param; every sub-solver of split() must answer like the original on its pins, for no / some / all new arguments"""
+    import random as _random
+    import props.c05 as c05
+    L = impl.lk()
+    rng = _random.Random(f"c12-defs-{seed}")
+    Probe = c05.probe_class()
+    rep = {"kind": "param-defs", "seed": seed}
+    ctx.case(rep, tags=["stream:param-definitions"])
+    names = ["A", "B", "C", "D", "E", "F"]
+    rng.shuffle(names)
+    top = L.Solver(name="top")
+    visible = []                      # parameter names visible at the top
+    k = 0
+    try:
+        with top:
+            for g in range(rng.randint(2, 3)):
+                prev = None
+                for e in range(rng.randint(1, 2)):
+                    k += 1
+                    pname = names[k % len(names)]
+                    probe = Probe(f"g{k}", {pname: rng.choice([0.125, 0.25, -0.375, 0.5])})
+                    if rng.random() < 0.55:
+                        blk = L.Solver(name=f"blk{k}")
+                        with blk:
+                            probe.put()
+                            L.raise_pins()
+                        vis = pname
+                        if rng.random() < 0.4:
+                            vis = f"{pname}r{k}"
+                            st = blk.put(param_mapping={pname: vis})
+                        else:
+                            st = blk.put()
+                    else:
+                        vis = pname
+                        st = probe.put()
+                    visible.append(vis)
+                    if prev is not None:
+                        L.connect(prev.pin[f"g{k-1}b0"], st.pin[f"g{k}a0"])
+                    prev = st
+            L.raise_pins()
+        defs = {}
+        for vis in sorted(set(visible)):
+            if rng.random() < 0.6:
+                a, b = rng.choice([0.5, -1.0, 2.0]), rng.choice([0.0, 0.125])
+                new = f"V{vis}"
+                top.add_param(vis, (lambda a=a, b=b, new=new: (lambda **kw: a * kw[new] + b))(), {new: rng.choice([0.25, -0.5])})
+                defs[vis] = new
+        subs = top.split()
+        calls = [{}]
+        news = sorted(defs.values())
+        if news:
+            calls.append({news[0]: 0.7})
+            calls.append({n_: rng.choice([0.3, -0.6, 0.9]) for n_ in news})
+            calls.append({news[-1]: np.array([0.1, 0.4, -0.2])})
+        plain = [v for v in sorted(set(visible)) if v not in defs]
+        if plain:
+            calls.append({plain[0]: 0.45, **({news[0]: -0.3} if news else {})})
+        for kw in calls:
+            ref = top.solve(**kw)
+            for sub in subs:
+                got = sub.solve(**kw)
+                for p_ in got.pin_dic:
+                    for q_ in got.pin_dic:
+                        d = np.max(np.abs(np.asarray(got.S)[:, got.pin_dic[p_], got.pin_dic[q_]] - np.asarray(ref.S)[:, ref.pin_dic[p_], ref.pin_dic[q_]]))
+                        if d > 1e-12:
+                            ctx.violation("C12:param-definitions", f"a sub-solver of split() and the original differ at ({p_.name},{q_.name}) by {d:.3e} for "
+                                          f"parameters {sorted(kw)} (add_param definitions {defs}, hierarchical blocks present)", rep)
+                            return False
+    except Exception as e:  # noqa
+        ctx.violation(f"C12:param-definitions-raised-{type(e).__name__}", f"split with parameter definitions raised {type(e).__name__}: {str(e)[:70]}", rep)
+        return False
+    return True
+
+
 def run(ctx):
+    for i in range(ctx.budget(40, 400)):
+        param_defs_case(ctx, f"{ctx.seed}:{ctx.scale}:{i}")
     rng = ctx.subrng("c12")
     n = ctx.budget(300, 5000)
     nmax = 8 if ctx.tier == "quick" else 14
@@ -206,6 +285,11 @@ def run(ctx):
 
 def replay(ctx, data):
     from fractions import Fraction
+    if data.get("kind") == "param-defs":
+        param_defs_case(ctx, data["seed"])
+        if ctx.violations:
+            return False, ctx.violations[0]["what"]
+        return True, "sub-solvers with parameter definitions answer like the original"
     pcirc = c04.pcirc_from_json(data["pcirc"])
     assigns = [{k: Fraction(v) for k, v in a.items()} for a in data["assigns"]]
     check(ctx, pcirc, data["order"], data["link_order"], assigns, data, {k: Fraction(v) for k, v in data.get("setp", {}).items()})
